@@ -556,8 +556,56 @@ func (z *Zipper) isolateDivergence() *ZipperArtifacts {
 
 	sort.Strings(r.Added)
 	sort.Strings(r.Removed)
-	r.Preserved = len(r.Added) == 0 && len(r.Removed) == 0
+	r.Preserved = len(r.Added) == 0 && len(r.Removed) == 0 && z.controlFlowConsistent()
 	return r
+}
+
+// controlFlowConsistent checks that the instruction matching induces a one-to-one mapping of
+// basic blocks that respects successor order. Instructions are matched by data flow alone, so
+// without this check "if c {A} else {B}" and "if c {B} else {A}" would be reported as preserved.
+func (z *Zipper) controlFlowConsistent() bool {
+	fwd := make(map[*ssa.BasicBlock]*ssa.BasicBlock)
+	rev := make(map[*ssa.BasicBlock]*ssa.BasicBlock)
+	for _, b := range z.oldFn.Blocks {
+		for _, iOld := range b.Instrs {
+			iNew, ok := z.instrMap[iOld]
+			if !ok {
+				continue
+			}
+			// Instructions without operands (jumps, bare returns) are matched arbitrarily;
+			// they say nothing about which blocks correspond.
+			if len(iOld.Operands(nil)) == 0 {
+				continue
+			}
+			bOld, bNew := iOld.Block(), iNew.Block()
+			if bOld == nil || bNew == nil {
+				continue
+			}
+			if m, seen := fwd[bOld]; seen && m != bNew {
+				return false
+			}
+			if m, seen := rev[bNew]; seen && m != bOld {
+				return false
+			}
+			fwd[bOld] = bNew
+			rev[bNew] = bOld
+		}
+	}
+	for _, bOld := range z.oldFn.Blocks {
+		bNew, ok := fwd[bOld]
+		if !ok {
+			continue
+		}
+		if len(bOld.Succs) != len(bNew.Succs) {
+			return false
+		}
+		for i, sOld := range bOld.Succs {
+			if m, ok := fwd[sOld]; ok && m != bNew.Succs[i] {
+				return false
+			}
+		}
+	}
+	return true
 }
 
 func (z *Zipper) formatInstr(instr ssa.Instruction) string {
